@@ -205,6 +205,28 @@ def bounded(rep: Report, tier, seed):
                                    inputs={"A": A4, "R": R, "params": params, "seed": sd})
     b.samples.append({"shape": [3, 5], "rank": 3, "R": 2, "oversample": 10, "algo": "rand n_iter=2", "regime": "sketch wider than the matrix"})
     b.done()
+    # graded spectra: exactness on rank <= R must survive several power iterations / passes (needs re-orthonormalisation)
+    from .. import runtime as rt
+    b2 = rep.add_bounded(Bounded("graded_spectra", "shapes (6,4) (4,6) (7,5); sigma_i = g^i for g in {1e-1, 1e-2, 1e-3}; rank = R in 2..4 and full rank; n_iter 1..3, passes 3..5; oversample {0, 2}",
+                                 "same contract (exact when rank <= R to 1e-7 sigma_1; orthonormal factors)"))
+    for (m, n) in [(6, 4), (4, 6)] + ([(7, 5)] if tier == "thorough" else []):
+        k = min(m, n)
+        for g in (1e-1, 1e-2, 1e-3):
+            for r in (2, 3, k):
+                sv = [g ** i for i in range(r)]
+                A4 = rt.from_svd(rng, m, n, sv)[0]
+                for R in sorted({r, min(k, r + 1)} if r < k else {2, k}):
+                    for algo, prm in (("rand", dict(n_iter=2)), ("rand", dict(n_iter=3)), ("rand", dict(n_iter=1)), ("pass", dict(n_passes=3)), ("pass", dict(n_passes=5)), ("pass", dict(n_passes=4))):
+                        for Pv in (0, 2):
+                            if tier == "quick" and Pv == 0 and prm.get("n_iter") == 1:
+                                continue
+                            params = dict(prm, oversample=Pv)
+                            b2.case(f"{P}.bounded.graded", (m, n, g, r, R, Pv, algo, tuple(sorted(prm.items()))),
+                                    lambda A4=A4, R=R, algo=algo, params=params, r=r: check_rand(A4, R, algo, params, seed, r),
+                                    f"{algo} {params} on {m}x{n} graded spectrum g={g} rank {r}, R={R}", facts={"m": m, "n": n, "rank": r, "R": R, "rank_lt_R": r < R, "algo": algo, "grade": g},
+                                    inputs={"A": A4, "R": R, "params": params, "seed": seed})
+    b2.samples.append({"shape": [6, 4], "sigma": [1, 1e-3, 1e-6], "R": 3, "algo": "rand n_iter=3"})
+    b2.done()
 
 
 def run(tier, seed):
